@@ -329,11 +329,17 @@ def writeFileWith (sd : Side) (bat : List Nat) (content : Bytes) (name ext : Str
   if free.length < reqBlocks content.length then .raised (.valueError "not.enough.blocks") sd
   else placeFile sd bat free content name ext kind flag
 
+/-- the two blocks of track 20 (table and catalog) are marked reserved when the table shows them
+    free — a side that was never formatted -/
+def protect (bat : List Nat) : List Nat :=
+  let b := if isFree (bat.getD 40 0) then bat.set 40 Gen.Disk.bsReserved else bat
+  if isFree (b.getD 41 0) then b.set 41 Gen.Disk.bsReserved else b
+
 /-- `FileSystemController.writeFile` -/
 def writeFile (sd : Side) (content : Bytes) (name ext : Str) (kind flag : Nat) : WriteResult :=
   match getBat sd with
   | .error e => .raised e sd
-  | .ok bat => writeFileWith sd bat content name ext kind flag
+  | .ok bat => writeFileWith sd (protect bat) content name ext kind flag
 
 /-- `initFileSystem` -/
 def initFileSystem (sd : Side) : Side :=
